@@ -230,7 +230,7 @@ def check_case(case):
     def viol(ob, what, fn, arg, got, exp):
         out["violations"].append(dict(
             obligation=ob, what=what, signature=sig(fn.split("(")[0], what.split(":")[0], case["name"], case["sr"]),
-            replay=dict(desc, observed_at=fn, argument=arg, observed=repr(got), expected=repr(exp), case=common.enc(case))))
+            replay=dict(desc, observed_at=fn, argument=arg, observed=lmspec.short(got), expected=lmspec.short(exp), case=common.enc(case))))
 
     if case["kind"] == "norm":
         check_norm(case, out, viol)
